@@ -245,6 +245,8 @@ func indexedBase(in ssa.Instruction) string {
 		return t.Name()
 	case *ssa.FreeVar:
 		return t.Name()
+	case *ssa.Global:
+		return t.Name() // a package-level table
 	}
 	return ""
 }
